@@ -30,6 +30,7 @@
 #include <stack>
 #include <tuple>
 #include <typeinfo>
+#include <unordered_map>
 #include <unordered_set>
 #include <unistd.h>
 #include <sys/stat.h>
@@ -119,6 +120,10 @@ struct Slots
    std::bitset<16>                   bs[NS];
    std::vector<bool>                 vb[NS];
    std::map<std::string, int>        ms[NS];
+   // the other key-value destinations (KeyValueContainerAdapter<>): keys may repeat in the multi-maps
+   std::multimap<std::string, int>             mms[NS];
+   std::unordered_map<std::string, int>        ums[NS];
+   std::unordered_multimap<std::string, int>   umms[NS];
    pa::LevelCounter                  lc[NS];
    std::vector<std::string>          used;   // slots bound by the configuration
 };
@@ -178,6 +183,21 @@ void initSlot(Slots& S, const std::string& slot, const std::vector<std::string>&
    else if (k == "ri") { auto v = ints(); for (size_t j = 0; j < 4 && j < v.size(); ++j) S.RI(n)[j] = v[j]; }
    else if (k == "bs") { for (int x : ints()) S.bs[n].set(x); }
    else if (k == "vb") { auto v = ints(); S.vb[n].resize(v.at(0)); for (size_t j = 1; j < v.size(); ++j) S.vb[n][v[j]] = true; }
+   else if (k == "ms" || k == "mms" || k == "ums" || k == "umms")
+   {
+      // init=<key hex>.<int>~<key hex>.<int>... : the pairs are inserted in this order
+      for (auto& x : init)
+      {
+         const size_t dot = x.find('.');
+         if (dot == std::string::npos) throw std::invalid_argument("init pair " + x);
+         const std::string key = vf::unhexs(x.substr(0, dot));
+         const int val = std::stoi(x.substr(dot + 1));
+         if (k == "ms") S.ms[n].insert({ key, val });
+         else if (k == "mms") S.mms[n].insert({ key, val });
+         else if (k == "ums") S.ums[n].insert({ key, val });
+         else S.umms[n].insert({ key, val });
+      }
+   }
    else throw std::invalid_argument("init for slot kind " + k);
 }
 
@@ -215,6 +235,9 @@ TypedArgBase* bindSlot(Slots& S, const std::string& slot)
    if (k == "bs") return pa::destination(S.bs[n], slot);
    if (k == "vb") return pa::destination(S.vb[n], slot);
    if (k == "ms") return pa::destination(S.ms[n], slot);
+   if (k == "mms") return pa::destination(S.mms[n], slot);
+   if (k == "ums") return pa::destination(S.ums[n], slot);
+   if (k == "umms") return pa::destination(S.umms[n], slot);
    if (k == "rb") return pa::destination(celma::common::RangeDest<size_t, std::bitset<1024>>(*S.rbP[n]), slot);
    if (k == "rv") return pa::destination(celma::common::RangeDest<int, std::vector<int>>(S.rv[n]), slot);
    if (k == "lc") return pa::destination(S.lc[n], slot);
@@ -257,11 +280,24 @@ std::string dumpSlot(Slots& S, const std::string& slot)
    if (k == "rb") { std::vector<int> v; for (size_t j = 0; j < 1024; ++j) if ((*S.rbP[n])[j]) v.push_back(static_cast<int>(j)); return joinInts(v); }
    if (k == "rv") return joinInts(S.rv[n]);
    if (k == "ms") { std::string r = "{"; bool f = true; for (auto& kv : S.ms[n]) { r += (f ? "" : ",") + ("s" + vf::hex(kv.first)) + ":" + std::to_string(kv.second); f = false; } return r + "}"; }
+   if (k == "mms" || k == "ums" || k == "umms")
+   {
+      // multimap: iteration order (ascending keys, equal keys in insertion order); the unordered kinds have no
+      // order of their own: canonical = sorted by (key, value)
+      std::vector<std::pair<std::string, int>> v;
+      if (k == "mms") v.assign(S.mms[n].begin(), S.mms[n].end());
+      else if (k == "ums") { v.assign(S.ums[n].begin(), S.ums[n].end()); std::sort(v.begin(), v.end()); }
+      else { v.assign(S.umms[n].begin(), S.umms[n].end()); std::sort(v.begin(), v.end()); }
+      std::string r = "{";
+      bool f = true;
+      for (auto& kv : v) { r += (f ? "" : ",") + ("s" + vf::hex(kv.first)) + ":" + std::to_string(kv.second); f = false; }
+      return r + "}";
+   }
    if (k == "lc") return std::to_string(S.lc[n].value());
    return "?";
 }
 
-bool numericKind(const std::string& k) { return k != "s" && k != "os" && k != "vs" && k != "d" && k != "ti" && k != "ms"; }
+bool numericKind(const std::string& k) { return k != "s" && k != "os" && k != "vs" && k != "d" && k != "ti" && k != "ms" && k != "mms" && k != "ums" && k != "umms"; }
 
 void applyOption(TypedArgBase* a, const std::string& slot, const std::string& opt)
 {
